@@ -8,6 +8,8 @@ from ..probe import call
 from ..ref import bits, ppm
 
 LEVEL = "exploration"
+TECHNIQUE = 'runtime monitoring: PPM modulator as forward model, exact list equality on the demodulator output, checksum invariant on every returned DF17'
+LEVEL_TEXT = 'Exploration over frame contents, offsets, amplitudes, noise families; regime R1 judged strictly, regime R2 is the recorded finding.'
 LEVEL_RULE = (
     "RtlReader._process_buffer() executed on an instance made with object.__new__ over synthetic sample buffers: 1-12 valid "
     "frames (DF17 with correct parity, DF20/21, DF4/5/11) PPM-modulated at 2 samples/us behind the 8 us preamble, amplitude "
